@@ -73,4 +73,61 @@ PROPS = {
                             "_id_map": [["prov.model.ProvBundle.get_record", "element returned"]]}},
         "explanation": "Invariant Idx (every index entry is the order-preserving filter of the record list by identifier URI) is preserved by the only writer _add_record; get_record/get_records/records are verified against it for every spelling of the identifier; new_record/add_record are the only callers of _add_record (single-writer scan).",
     },
+    "C09": {
+        "level": "proof",
+        "driver": "replay/c09.py",
+        "always_native": True,
+        "timeout": 40.0,
+        "trusted_base": TRUSTED_SOLVERS + ["list facts seq_snoc_lemma (length/last/earlier positions after appending one element), stated as an axiom of the sequence theory"],
+        "assumptions": A_COMMON + [
+            "record state view as in C04/C05; record content = (type URI, identifier URI, set of (attribute URI, canonical value)) - the record key of ProvRecord.__eq__ (C04), compared position by position (which implies the multiset identity of C09)",
+            "precondition: the source records are in normal form with single-valued formal attributes (C05; a multi-entity membership record is outside, as in C05) and the containers satisfy the bundle invariant (index, namespace-manager invariant, records in normal form)",
+            "ProvBundle.__init__/ProvDocument.__init__ are verified for records=None (with records they run the loop verified in ProvBundle.update)",
+            "ProvBundle.update/add_bundle are stated for ProvBundle/ProvDocument arguments",
+            "ProvDocument.bundle: BundlesOK for the bundles already present is not proved (frame only)",
+        ],
+        "bounded_units": [
+            {"function": "prov.model.ProvDocument.update", "how": "native battery replay/c09.py (update and update-twice over all ordered pairs of three hand-built documents with shared bundle identifiers, clashing prefixes and differing default namespaces), strict multiset oracle",
+             "why": "its second loop modifies records of an unbounded set of objects (all bundles of the document); pyvc's modifies clauses name single objects only. Its building blocks add_record, ProvBundle.update and ProvDocument.bundle are proved."},
+            {"function": "prov.model.ProvDocument.flattened", "how": "native battery replay/c09.py (three documents), strict multiset oracle",
+             "why": "iterates itertools.chain over a list of lists; pyvc has no theory of list flattening. The per-record step add_record is proved for every namespace environment."},
+        ],
+        "scans": {"writers": {"_bundles": ["prov.model.ProvDocument.__init__", "prov.model.ProvDocument.add_bundle", "prov.model.ProvDocument.bundle",
+                                           "prov.model.ProvDocument.update"]},  # update(): calls ProvBundle.update on an element; bounded unit
+                  "leaks": {}},
+        "explanation": "Conservation is carried by postconditions: add_record returns a fresh record with the same record key as its source (same type, identifier URI and attribute pair set, in every namespace environment of the target) and leaves every existing record untouched; ProvBundle.update's loop invariant says position old_len+j holds a content-equal copy of other's j-th record and earlier positions are kept; add_bundle registers exactly one new bundle (the argument, or a fresh bundle of copies for a bundle-free document) and leaves the document unchanged on every exceptional exit; bundle() registers a fresh empty bundle.",
+    },
+    "C12": {
+        "level": "proof",
+        "driver": "replay/c12.py",
+        "always_native": True,
+        "timeout": 40.0,
+        "trusted_base": TRUSTED_SOLVERS + ["syntactic ownership scans (pyvc/scans.py): completeness of the patterns 'store to a field', 'element store', 'mutator call', 'whole-container read that escapes' over the package's AST"],
+        "assumptions": A_COMMON + [
+            "ownership discipline (checked by the scans on every run, not assumed): the container fields _attributes (and its value sets), _records, _id_map (and its lists), _bundles, and the manager tables _namespaces/_uri_map/_rename_map/_prefix_renamed_map are only ever assigned newly created containers (scan:fresh-store), and are not handed out as a whole except at the recorded read-only accessors (scan:no-leak); this is what makes the value semantics of owned containers in the VCs sound",
+            "separation is stated as freshness: the result object, its namespace manager and every record appended are allocated by the call (fresh); that a later mutation of one side leaves the other unchanged then follows from the verified modifies clauses of the mutators (add_attributes, add_record/new_record, add_namespace, set_default_namespace, bundle, add_bundle), which name only fields of their receiver, its manager and freshly allocated objects",
+            "ProvRecord.copy() keeps the same _bundle object (documented 'exact copy'); a copy is therefore not separate from its source's bundle namespace scope, only from the source record",
+            "unified/flattened/ProvDocument.update/constructors with records/deserialisation are covered by the scans (no store of a foreign container, no shared manager) and by the bounded native battery, not by postconditions of their own (see bounded_units)",
+        ],
+        "bounded_units": [
+            {"function": "prov.model.ProvDocument.unified, ProvBundle.unified, ProvDocument.flattened, ProvDocument.update, ProvBundle.__init__(records=...), ProvDocument.deserialize",
+             "how": "ownership scans over the whole package (these functions contain no store into an owned container field other than through the verified add_record / add_bundle / constructors) + native battery replay/c12.py: every deriving operation x 6 follow-up mutations x mutated side on two documents",
+             "why": "their loops run over lists of lists / dict views that pyvc's loop rule does not cover (see C09); the record-level and bundle-level steps they are built from are under contract"},
+        ],
+        "scans": {
+            "leaks": {
+                "_attributes": [["prov.model.ProvRecord.get_asserted_types", "element returned"], ["prov.model.ProvRecord.get_attribute", "element returned"],
+                                ["prov.model.ProvRecord.value", "element returned"]],
+                "_records": [["prov.model.ProvDocument.flattened", "passed to itertools.chain"]],
+                "_id_map": [["prov.model.ProvBundle.get_record", "element returned"]],
+                "_bundles": [["prov.model.ProvDocument.bundles", "live view returned"]],
+                "_namespaces": [["prov.model.NamespaceManager.get_registered_namespaces", "live view returned"],
+                                ["prov.model.ProvDocument.add_bundle", "aliased by assignment"]],
+                "_uri_map": [], "_rename_map": [["prov.model.NamespaceManager.add_namespace", "element returned"]], "_prefix_renamed_map": [],
+            },
+            "fresh_stores": {"fields": ["_attributes", "_records", "_id_map", "_bundles", "_namespaces", "_uri_map", "_rename_map", "_prefix_renamed_map"],
+                             "nested": ["_attributes", "_id_map"], "allowed": {}},
+        },
+        "explanation": "Freshness postconditions: add_record/new_record return a record allocated by the call; ProvBundle.update appends only such records (loop invariant new-records-fresh); ProvBundle/ProvDocument constructors create their own NamespaceManager (own-fresh-manager); add_bundle of a document registers a fresh ProvBundle with a fresh manager holding copies; ProvRecord.copy returns a fresh record and leaves the source and its bundle's record list unchanged. Ownership scans close the gap the value-semantics encoding leaves: no container is stored into two owners, no manager object is shared (this is what flagged ProvDocument.unified before the fix).",
+    },
 }
